@@ -1362,9 +1362,12 @@ def rule_schema_text(m):
         tt = Terms(f)
         s = ('var', f.params[0])
         incs = [n for n in f.nodes if n['k'] == 'UnaryOperator' and n['op'] in ('++',)]
+        decs_ = [n for n in f.nodes if n['k'] == 'UnaryOperator' and n['op'] in ('--',)]
         rets = [n for n in f.nodes if n['k'] == 'ReturnStmt']
         why = None
-        if len(incs) != 1 or len(rets) != 1:
+        if decs_ and not incs:
+            why = 'the name counter is decremented (`%s`): the second new name gets index 4294967295 instead of 1' % f.expr_text(decs_[0]['i'])[:30]
+        elif len(incs) != 1 or len(rets) != 1:
             why = 'expected one counter increment and one return'
         else:
             from .rules_pair import true_atoms
